@@ -143,6 +143,7 @@ def run_pair(case, ctx):
 
     if n_meas:
         import itertools
+        done_var = False
         for outcome in itertools.product("01", repeat=n_meas):
             b = "".join(outcome)
             psi, p = refsim.run_branch(gates, n, b, init)
@@ -159,6 +160,33 @@ def run_pair(case, ctx):
                 ctx.check("desired_meas_result", abs(complex(got) - exact) < 1e-7,
                           f"cirq frequency route conditioned on outcomes {b} differs from the branch state's value",
                           lambda: dict(wit_base, desired=b, got=complex(got), expected=exact, backend="cirq-freq-route"))
+            # variance / standard error conditioned on the requested outcomes: sampling the branch distribution
+            st = term_stats(terms, psi, n)
+            var_b = sum((abs(complex(c).real) ** 2 + abs(complex(c).imag) ** 2) * max(0.0, 1 - e * e) for t, c, e in st if t)
+            ns = 2000
+            bsv = get_backend("cirq", n_shots=ns)
+            np.random.seed(s + len(b))
+            # with shots the requested outcomes are obtained by post-selection: the number of usable shots is Binomial(ns, p)
+            n_eff = ns * p - 6 * math.sqrt(max(0.0, ns * p * (1 - p)))
+            if p < 0.2 or n_eff < 200 or len(terms) > 5 or done_var:
+                ctx.note("conditioned_variance_skipped")
+                continue
+            done_var = True
+            try:
+                gv = bsv.get_variance(op, circ, initial_statevector=init, desired_meas_result=b)
+                tol = 1e-9
+                for t, c, e in st:
+                    if t:
+                        d = 6 * math.sqrt(max(0.0, 1 - e * e) / n_eff)
+                        tol += abs(c) ** 2 * (2 * abs(e) * d + d * d + 2.0 / n_eff)
+                ctx.check("variance_desired_meas_result", abs(complex(gv) - var_b) <= tol,
+                          f"variance conditioned on mid-circuit outcomes {b} is not that of sampling the branch distribution",
+                          lambda: dict(wit_base, desired=b, got=complex(gv), expected=var_b, tolerance=tol, n_shots=ns))
+            except ValueError as ex:
+                if "was not measured" in str(ex):
+                    ctx.note("rare_branch_not_sampled")
+                else:
+                    raise
         return
 
     psi = refsim.run(gates, n, init)
